@@ -528,7 +528,7 @@ func lcRun(id int, sc *lcScen, base string) {
 		}
 	}
 	// phase 1: no help from outside. In every terminal state of the (repaired) model all calls have returned.
-	deadline := time.After(700 * time.Millisecond)
+	deadline := time.After(2000 * time.Millisecond)
 wait1:
 	for len(pending) > 0 {
 		select {
